@@ -708,6 +708,21 @@ func (x *Exec) mapGet(s *State, mt *types.Map, m, k string) (Val, string) {
 	return v, in
 }
 
+// nameF names a long finite float term: r!k = inner, value (fin r!k).
+func (x *Exec) nameF(s *State, term string) string {
+	if len(term) < 40 {
+		return term
+	}
+	if inner, ok := (fctx{s}).finInner(term); ok {
+		n := x.D.fresh("fr", "Real")
+		s.pc = append(s.pc, "(= "+n+" "+inner+")")
+		return "(fin " + n + ")"
+	}
+	n := x.D.fresh("fl", "F")
+	s.pc = append(s.pc, "(= "+n+" "+term+")")
+	return n
+}
+
 // nameTerm binds a compound term to a fresh constant (let-naming keeps obligations small).
 func (x *Exec) nameTerm(s *State, term, sort, hint string) string {
 	if len(term) < 60 {
@@ -875,7 +890,7 @@ func (x *Exec) execUnOp(s *State, in *ssa.UnOp) {
 		s.top().regs[in] = Val{Typ: in.Type(), L: []string{sNot(xv.L[0])}}
 	case token.SUB:
 		if isFloat(in.Type()) {
-			s.top().regs[in] = Val{Typ: in.Type(), L: []string{"(fneg " + xv.L[0] + ")"}}
+			s.top().regs[in] = Val{Typ: in.Type(), L: []string{fctx{s}.neg(xv.L[0])}}
 		} else {
 			s.top().regs[in] = Val{Typ: in.Type(), L: []string{wrapFor(in.Type(), "(- "+xv.L[0]+")")}}
 		}
@@ -924,27 +939,29 @@ func (x *Exec) binop(s *State, op token.Token, a, b Val, rt types.Type, in ssa.I
 	mk := func(term string) Val { return Val{Typ: rt, L: []string{term}} }
 	switch {
 	case isFloat(t):
+		fc := fctx{s}
+		fl := func(term string) Val { return Val{Typ: rt, L: []string{x.nameF(s, term)}} }
 		switch op {
 		case token.ADD:
-			return mk("(fadd " + a.L[0] + " " + b.L[0] + ")")
+			return fl(fc.add(a.L[0], b.L[0]))
 		case token.SUB:
-			return mk("(fsub " + a.L[0] + " " + b.L[0] + ")")
+			return fl(fc.sub(a.L[0], b.L[0]))
 		case token.MUL:
-			return mk("(fmul " + a.L[0] + " " + b.L[0] + ")")
+			return fl(fc.mul(a.L[0], b.L[0]))
 		case token.QUO:
-			return mk("(fdiv " + a.L[0] + " " + b.L[0] + ")")
+			return fl(fc.div(a.L[0], b.L[0]))
 		case token.LSS:
-			return mk("(flt " + a.L[0] + " " + b.L[0] + ")")
+			return mk(fc.lt(a.L[0], b.L[0]))
 		case token.LEQ:
-			return mk("(fle " + a.L[0] + " " + b.L[0] + ")")
+			return mk(fc.le(a.L[0], b.L[0]))
 		case token.GTR:
-			return mk("(flt " + b.L[0] + " " + a.L[0] + ")")
+			return mk(fc.lt(b.L[0], a.L[0]))
 		case token.GEQ:
-			return mk("(fle " + b.L[0] + " " + a.L[0] + ")")
+			return mk(fc.le(b.L[0], a.L[0]))
 		case token.EQL:
-			return mk("(feq " + a.L[0] + " " + b.L[0] + ")")
+			return mk(fc.eq(a.L[0], b.L[0]))
 		case token.NEQ:
-			return mk("(not (feq " + a.L[0] + " " + b.L[0] + "))")
+			return mk(sNot(fc.eq(a.L[0], b.L[0])))
 		}
 	case isInteger(t):
 		switch op {
@@ -1103,17 +1120,19 @@ func (x *Exec) convert(s *State, v Val, to types.Type, in ssa.Instruction) Val {
 		}
 		return Val{Typ: to, L: []string{wrapFor(to, v.L[0])}}
 	case isInteger(from) && isFloat(to):
-		return Val{Typ: to, L: []string{"(i2f " + v.L[0] + ")"}}
+		return Val{Typ: to, L: []string{i2fTerm(v.L[0])}}
 	case isFloat(from) && isInteger(to):
 		lo, hi, _ := intRange(to)
 		if x.checkSafety {
-			goal := sAnd("(isfin "+v.L[0]+")", "(<= "+lo+" (f2i "+v.L[0]+"))", "(<= (f2i "+v.L[0]+") "+hi+")")
+			fc := fctx{s}
+			goal := sAnd(fc.isfin(v.L[0]), "(<= "+lo+" "+fc.f2i(v.L[0])+")", "(<= "+fc.f2i(v.L[0])+" "+hi+")")
 			x.emit(s, "safety", "float_to_int_defined", x.spec.Safety, goal, nil)
 		}
 		// amd64 semantics for the undefined cases: the "integer indefinite" value
+		fc := fctx{s}
 		r := x.D.fresh("f2i", "Int")
-		inr := sAnd("(isfin "+v.L[0]+")", "(<= "+lo+" (f2i "+v.L[0]+"))", "(<= (f2i "+v.L[0]+") "+hi+")")
-		s.assume("(= " + r + " " + sIte(inr, "(f2i "+v.L[0]+")", lo) + ")")
+		inr := sAnd(fc.isfin(v.L[0]), "(<= "+lo+" "+fc.f2i(v.L[0])+")", "(<= "+fc.f2i(v.L[0])+" "+hi+")")
+		s.assume("(= " + r + " " + sIte(inr, fc.f2i(v.L[0]), lo) + ")")
 		return Val{Typ: to, L: []string{r}}
 	case isFloat(from) && isFloat(to):
 		return Val{Typ: to, L: v.L}
